@@ -1,3 +1,4 @@
+import RodbusModel.Props.C05Cancel
 import RodbusModel.Props.C01Write
 import RodbusModel.Props.C02
 import RodbusModel.Props.C02Session
@@ -32,3 +33,6 @@ import RodbusModel.Props.C02Session
 #print axioms Rodbus.C02.corrupted_request_no_effect
 #print axioms Rodbus.C01W.write_failure_calls_justified
 #print axioms Rodbus.C01W.write_failure_prefix
+#print axioms Rodbus.Cancel.session_cancel_safe
+#print axioms Rodbus.Cancel.cancel_safe_mbap
+#print axioms Rodbus.Cancel.cancel_safe_rtu
